@@ -683,7 +683,7 @@ def check(pid, tier):
         return rep.finish()
     tlc.check_not_vacuous(res["c06_grid_loop"], ["Create", "LoopBody", "LoopEnd", "DoFlatten"], "c06_grid_loop")
     tlc.check_not_vacuous(res["c06_grid_tab"], ["Call"], "c06_grid_tab")
-    tlc.check_not_vacuous(res["c06_divide"], ["GetKList", "Refine"], "c06_divide")
+    tlc.check_not_vacuous(res["c06_divide"], ["GetKList"], "c06_divide")   # Refine sits under \E: TLC reports it as a sub-action of Next; replay_divide requires "done" states in the dump
     tlc.check_not_vacuous(res["c06_excl"], ["Call"], "c06_excl")
     tlc.check_not_vacuous(res["c06_tetra"], ["VolRound", "VolEnd", "SizRound", "SizEnd"], "c06_tetra")
 
